@@ -745,7 +745,53 @@ func safeResolve(b arrow.RecordBatch, md arrow.Metadata, cfg *vgirpc.ExternalLoc
 type bodies struct {
 	plain map[int][]byte    // by bsz
 	zstd  map[[2]int][]byte // by (bsz, dsz): one frame
-	multi map[string][]byte // by framing + dsz: several concatenated frames, encoded size cap-1
+	multi map[string][]byte // by framing + dsz: several concatenated frames, encoded size cap-1 (built on demand)
+	base  []byte            // the undamaged IPC stream every body decodes to (plus zero padding)
+	capF  int64             // MaxFetchBytes
+	capD  int64             // MaxDecompressedBytes
+}
+
+// multiBody builds a multi-frame zstd body: the decoded payload (size capD+dsz) is
+// cut into 2..4 pieces, each its own frame (RFC 8878 3.1: frames may be
+// concatenated); every single frame is far within the cap, only the sum is at
+// cap-1 / cap / cap+1. A trailing skippable frame brings the encoded size to capF-1.
+func (s *stepper) multiBody(fr string, dsz int) ([]byte, error) {
+	key := fmt.Sprintf("%s/%d", fr, dsz)
+	if b, ok := s.bd.multi[key]; ok {
+		return b, nil
+	}
+	if fr != "multi_fcs" && fr != "multi_nofcs" && fr != "multi_mixed" {
+		return nil, fmt.Errorf("unknown framing %q", fr)
+	}
+	rng := s.rng
+	dec := make([]byte, s.bd.capD+int64(dsz))
+	copy(dec, s.bd.base)
+	k := 2 + rng.Intn(3)
+	cuts := []int{0}
+	for i := 1; i < k; i++ {
+		cuts = append(cuts, i*len(dec)/k+rng.Intn(16))
+	}
+	if rng.Intn(3) == 0 {
+		cuts[k-1] = len(dec) - 2 - rng.Intn(8) // a tiny last frame tips the sum over
+	}
+	cuts = append(cuts, len(dec))
+	var body []byte
+	for i := 0; i < k; i++ {
+		chunk := dec[cuts[i]:cuts[i+1]]
+		declare := fr == "multi_fcs" || (fr == "multi_mixed" && i == 0)
+		frame, err := zstdFrame(chunk, declare)
+		if err != nil {
+			return nil, err
+		}
+		body = append(body, frame...)
+	}
+	want := int(s.bd.capF) - 1
+	if want-len(body) < 8 {
+		return nil, fmt.Errorf("multi-frame payload (%d) too close to the cap (%d) to pad", len(body), want)
+	}
+	body = append(body, skippable(want-len(body))...)
+	s.bd.multi[key] = body
+	return body, nil
 }
 
 func (s *stepper) call(st replay.Step) (replay.Obs, error) {
@@ -785,39 +831,8 @@ func (s *stepper) call(st replay.Step) (replay.Obs, error) {
 			bd.zstd[[2]int{bsz, dsz}] = append(z, skippable(want-len(z))...)
 		}
 	}
-	// multi-frame zstd bodies: the decoded payload is cut into 2..4 pieces, each its
-	// own frame (RFC 8878 3.1: frames may be concatenated); every single frame is far
-	// within the cap, only the sum is at cap-1 / cap / cap+1.
 	bd.multi = map[string][]byte{}
-	for _, fr := range []string{"multi_fcs", "multi_nofcs", "multi_mixed"} {
-		for _, dsz := range []int{-1, 0, 1} {
-			dec := pad(base, capD+int64(dsz))
-			k := 2 + rng.Intn(3)
-			cuts := []int{0}
-			for i := 1; i < k; i++ {
-				cuts = append(cuts, i*len(dec)/k+rng.Intn(16))
-			}
-			if rng.Intn(3) == 0 {
-				cuts[k-1] = len(dec) - 2 - rng.Intn(8) // a tiny last frame tips the sum over
-			}
-			cuts = append(cuts, len(dec))
-			var body []byte
-			for i := 0; i < k; i++ {
-				chunk := dec[cuts[i]:cuts[i+1]]
-				declare := fr == "multi_fcs" || (fr == "multi_mixed" && i == 0)
-				frame, err := zstdFrame(chunk, declare)
-				if err != nil {
-					return nil, err
-				}
-				body = append(body, frame...)
-			}
-			want := int(capF) - 1
-			if want-len(body) < 8 {
-				return nil, fmt.Errorf("multi-frame payload (%d) too close to the cap (%d) to pad", len(body), want)
-			}
-			bd.multi[fmt.Sprintf("%s/%d", fr, dsz)] = append(body, skippable(want-len(body))...)
-		}
-	}
+	bd.base, bd.capF, bd.capD = base, capF, capD
 	s.bd, s.mr, s.rt = bd, mr, rt
 
 	h0 := g.mintHop(rng, 0, v0)
@@ -1039,9 +1054,9 @@ func (s *stepper) originAnswer(st replay.Step) (replay.Obs, error) {
 			if bsz != -1 {
 				return nil, fmt.Errorf("multi-frame bodies exist only at encoded size cap-1")
 			}
-			body = s.bd.multi[fmt.Sprintf("%s/%d", fr, dsz)]
-			if body == nil {
-				return nil, fmt.Errorf("unknown framing %q", fr)
+			var err error
+			if body, err = s.multiBody(fr, dsz); err != nil {
+				return nil, err
 			}
 		} else if enc == "zstd" {
 			body = s.bd.zstd[[2]int{bsz, dsz}]
